@@ -58,6 +58,39 @@ func logStateChanges(p *Prog, fn *Fn, n ast.Node, fields map[*types.Var]bool) []
 }
 
 // capturedErrVars: error-typed locals of fn assigned inside one of its literals.
+// errRecorderFns: per analysed function, the declared functions and methods that store into an aggregated-error
+// field of an aggregate the function's literals hand them (filled by capturedErrVars).
+var errRecorderFns = map[*Fn]map[*Fn]bool{}
+
+// errPlaceOf: the aggregated-error place an expression denotes — a variable, or an error-typed field.
+func errPlaceOf(p *Prog, fn *Fn, e ast.Expr, canon bool) types.Object {
+	switch x := ast.Unparen(e).(type) {
+	case *ast.Ident:
+		if canon {
+			return p.CanonObj(fn, x)
+		}
+		return p.ObjOf(fn, x)
+	case *ast.SelectorExpr:
+		if v, _ := p.FieldSel(fn, x); v != nil && isErrorType(v.Type()) {
+			return v
+		}
+	}
+	return nil
+}
+
+// recorderCall: the recorder a call in fn invokes — a local closure, or a declared recorder of root.
+func recorderCall(p *Prog, fn, root *Fn, call *ast.CallExpr, recorders map[*Fn]bool) *Fn {
+	if t := p.localClosure(fn, call); t != nil && recorders[t] {
+		return t
+	}
+	if cf := p.Callee(fn, call); cf != nil {
+		if t := p.ByObj[cf]; t != nil && errRecorderFns[orig(root)][t] {
+			return t
+		}
+	}
+	return nil
+}
+
 func capturedErrVars(p *Prog, fn *Fn) map[types.Object]bool {
 	out := map[types.Object]bool{}
 	for _, lit := range AllFnsUnder(fn)[1:] {
@@ -74,6 +107,73 @@ func capturedErrVars(p *Prog, fn *Fn) map[types.Object]bool {
 			return true
 		})
 	}
+	// an error-typed field of an aggregate declared in fn, written by the literals directly (`failure.err = e`) or
+	// through a first-party function or method they hand the aggregate to (`failure.set(e)`): the field is the
+	// place, the callee a recorder
+	outer := func(lit *Fn, e ast.Expr) bool {
+		root, _, ok := p.PathKey(lit, e)
+		v, isVar := root.(*types.Var)
+		return ok && isVar && !v.IsField() && declaredIn(v, fn) && !declaredIn(v, lit)
+	}
+	recs := map[*Fn]bool{}
+	for _, lit := range AllFnsUnder(fn)[1:] {
+		lit := lit
+		ast.Inspect(lit.Body, func(n ast.Node) bool {
+			switch x := n.(type) {
+			case *ast.AssignStmt:
+				for _, l := range x.Lhs {
+					if fv, base := p.FieldSel(lit, l); fv != nil && isErrorType(fv.Type()) && outer(lit, base) {
+						out[fv] = true
+					}
+				}
+			case *ast.CallExpr:
+				cf := p.Callee(lit, x)
+				if cf == nil {
+					return true
+				}
+				callee := p.ByObj[cf]
+				if callee == nil || callee.Body == nil || callee.Decl == nil {
+					return true
+				}
+				var params []types.Object
+				if se, ok := ast.Unparen(x.Fun).(*ast.SelectorExpr); ok && callee.Decl.Recv != nil && len(callee.Decl.Recv.List) == 1 && len(callee.Decl.Recv.List[0].Names) == 1 && outer(lit, se.X) {
+					params = append(params, callee.Pkg.TypesInfo.Defs[callee.Decl.Recv.List[0].Names[0]])
+				}
+				for i, a := range x.Args {
+					if outer(lit, a) {
+						if po := paramObjAny(callee, i); po != nil {
+							params = append(params, po)
+						}
+					}
+				}
+				if len(params) == 0 {
+					return true
+				}
+				walkNoLit(callee.Body, func(m ast.Node) bool {
+					as, ok := m.(*ast.AssignStmt)
+					if !ok {
+						return true
+					}
+					for _, l := range as.Lhs {
+						fv, base := p.FieldSel(callee, l)
+						if fv == nil || !isErrorType(fv.Type()) {
+							continue
+						}
+						root, _, ok := p.PathKey(callee, base)
+						for _, po := range params {
+							if ok && root == po {
+								out[fv] = true
+								recs[callee] = true
+							}
+						}
+					}
+					return true
+				})
+			}
+			return true
+		})
+	}
+	errRecorderFns[orig(fn)] = recs
 	// a copy of such a variable (the helper's `return err` spliced into `err := …`) is the same verdict
 	for changed := true; changed; {
 		changed = false
@@ -189,7 +289,7 @@ func runC06(c *Ctx, r *Report) {
 	jf.Edge = func(cond ast.Expr, taken bool, f Facts) {
 		for _, a := range splitCond(cond, taken) {
 			if x, isNil, ok := nilTest(a); ok && isNil {
-				if id, ok := ast.Unparen(x).(*ast.Ident); ok && errVars[p.ObjOf(join, id)] && f["waited"] {
+				if o := errPlaceOf(p, join, x, false); o != nil && errVars[o] && f["waited"] {
 					f["validated"] = true
 				}
 			}
@@ -412,37 +512,11 @@ func c063(c *Ctx, r *Report, join *Fn, errVars map[types.Object]bool) {
 		return
 	}
 	vx, ax := types.ExprString(valRange.X), types.ExprString(applyRange.X)
-	collOK := vx == ax
-	// both must be <coll>.Keys() on the same variable
+	collOK := true
+	// both must be <coll>.Keys() (or a copy of it) on the same variable
 	collVar := func(e ast.Expr) types.Object {
-		// a temporary holding the key list (`keys := coll.Keys()`, assigned once) stands for that call
-		if id, ok := ast.Unparen(e).(*ast.Ident); ok {
-			o := p.CanonObj(join, id)
-			var def ast.Expr
-			ndef := 0
-			walkNoLit(join.Body, func(nd ast.Node) bool {
-				if as, ok := nd.(*ast.AssignStmt); ok && len(as.Lhs) == len(as.Rhs) {
-					for i, l := range as.Lhs {
-						if lid, ok := ast.Unparen(l).(*ast.Ident); ok && p.CanonObj(join, lid) == o {
-							ndef++
-							def = as.Rhs[i]
-						}
-					}
-				}
-				return true
-			})
-			if ndef == 1 {
-				e = def
-			}
-		}
-		if call, ok := ast.Unparen(e).(*ast.CallExpr); ok {
-			if se, ok := ast.Unparen(call.Fun).(*ast.SelectorExpr); ok && se.Sel.Name == "Keys" && len(call.Args) == 0 {
-				if id, ok := ast.Unparen(se.X).(*ast.Ident); ok {
-					return p.CanonObj(join, id)
-				}
-			}
-		}
-		return nil
+		// the key list, a temporary holding it, or a copy of it (sorted or not) stand for <coll>.Keys()
+		return keysCollection(p, join, e, 0)
 	}
 	cv, ca := collVar(valRange.X), collVar(applyRange.X)
 	collOK = collOK && cv != nil && cv == ca
@@ -551,8 +625,15 @@ func c063(c *Ctx, r *Report, join *Fn, errVars map[types.Object]bool) {
 					rec = true
 				}
 			}
+			if as, ok := x.(*ast.AssignStmt); ok {
+				for _, l := range as.Lhs {
+					if o := errPlaceOf(p, val, l, true); o != nil && errVars[o] {
+						rec = true
+					}
+				}
+			}
 			if call, ok := x.(*ast.CallExpr); ok {
-				if t := p.localClosure(val, call); t != nil && recorders[t] {
+				if t := recorderCall(p, val, join, call, recorders); t != nil {
 					rec = true
 				}
 			}
@@ -705,7 +786,7 @@ func c063(c *Ctx, r *Report, join *Fn, errVars map[types.Object]bool) {
 			walkNoLit(n, func(nd ast.Node) bool {
 				if as, isAs := nd.(*ast.AssignStmt); isAs {
 					for _, l := range as.Lhs {
-						if id, isId := ast.Unparen(l).(*ast.Ident); isId && errVars[p.CanonObj(rec, id)] {
+						if o := errPlaceOf(p, rec, l, true); o != nil && errVars[o] {
 							if !before["nn|"+p.ID(par)] {
 								ok = false
 							}
@@ -743,7 +824,7 @@ func c063(c *Ctx, r *Report, join *Fn, errVars map[types.Object]bool) {
 		walkNoLit(n, func(nd ast.Node) bool {
 			switch x := nd.(type) {
 			case *ast.CallExpr:
-				if t := p.localClosure(val, x); t != nil && recorders[t] && len(x.Args) == 1 {
+				if t := recorderCall(p, val, join, x, recorders); t != nil && len(x.Args) == 1 {
 					nrec++
 					ok := nilSafeRecorder(t) || knownNonNil(x.Args[0], before)
 					r.Check(ok, "R-C06.8", r.Key("R-C06.8", val, "record", types.ExprString(x.Args[0])), x.Pos(),
@@ -752,7 +833,7 @@ func c063(c *Ctx, r *Report, join *Fn, errVars map[types.Object]bool) {
 				}
 			case *ast.AssignStmt:
 				for i, l := range x.Lhs {
-					if id, ok := ast.Unparen(l).(*ast.Ident); ok && errVars[p.CanonObj(val, id)] && i < len(x.Rhs) {
+					if o := errPlaceOf(p, val, l, true); o != nil && errVars[o] && i < len(x.Rhs) {
 						nrec++
 						r.Check(knownNonNil(x.Rhs[i], before), "R-C06.8", r.Key("R-C06.8", val, "record", types.ExprString(x.Rhs[i])), x.Pos(),
 							"the recorded value is known non-nil", "the validator stores a possibly nil value into the aggregated error: a later success erases an earlier failure")
@@ -1161,7 +1242,7 @@ func joinValidationFlow(c *Ctx) (*Flow, map[*types.Var]bool) {
 	jf.Edge = func(cond ast.Expr, taken bool, f Facts) {
 		for _, a := range splitCond(cond, taken) {
 			if x, isNil, ok := nilTest(a); ok && isNil {
-				if id, ok := ast.Unparen(x).(*ast.Ident); ok && errVars[p.ObjOf(join, id)] && f["waited"] {
+				if o := errPlaceOf(p, join, x, false); o != nil && errVars[o] && f["waited"] {
 					f["validated"] = true
 				}
 			}
